@@ -1245,6 +1245,35 @@ impl ValueTable {
 		Ok(len)
 	}
 
+	/// Verification hook: raw view of the table (see verif::TableDump).
+	#[cfg(parity_db_verif)]
+	pub fn verif_dump(&self) -> Result<crate::verif::TableDump> {
+		let mut d = crate::verif::TableDump {
+			tier: self.id.size_tier(),
+			entry_size: self.entry_size,
+			multipart: self.multipart,
+			ref_counted: self.ref_counted,
+			exists: self.file.map.read().is_some(),
+			mem_filled: self.filled.load(Ordering::Relaxed),
+			mem_last_removed: self.last_removed.load(Ordering::Relaxed),
+			..Default::default()
+		};
+		if d.exists {
+			let mut header = Header::default();
+			self.file.read_at(&mut header.0, 0)?;
+			d.file_filled = header.filled();
+			d.file_last_removed = header.last_removed();
+			let capacity = self.file.capacity.load(Ordering::Relaxed);
+			let n = std::cmp::min(self.entry_size as usize, 64);
+			for index in 1..std::cmp::min(d.file_filled, capacity) {
+				let mut buf = vec![0u8; n];
+				self.file.read_at(&mut buf, index * self.entry_size as u64)?;
+				d.slots.push(buf);
+			}
+		}
+		Ok(d)
+	}
+
 	pub fn get_num_entries(&self) -> Result<u64> {
 		if let Some(free_entries) = &self.free_entries {
 			let free_entries = free_entries.read();
